@@ -339,6 +339,15 @@ class PDFXRefStream(PDFBaseXRef):
             raise PDFKeyError(objid)
 
 
+def unpad_aes(padded: bytes) -> bytes:
+    """Remove the PKCS#5 block padding (PDF 32000-1 7.6.2) if it is well formed"""
+    if len(padded) >= 16 and len(padded) % 16 == 0:
+        n = padded[-1]
+        if 1 <= n <= 16 and padded[-n:] == bytes((n,)) * n:
+            return padded[:-n]
+    return padded
+
+
 class PDFStandardSecurityHandler:
     PASSWORD_PADDING = (
         b"(\xbfN^Nu\x8aAd\x00NV\xff\xfa\x01\x08"
@@ -547,7 +556,7 @@ class PDFStandardSecurityHandlerV4(PDFStandardSecurityHandler):
             modes.CBC(initialization_vector),
             backend=default_backend(),
         )  # type: ignore
-        return cipher.decryptor().update(ciphertext)  # type: ignore
+        return unpad_aes(cipher.decryptor().update(ciphertext))  # type: ignore
 
 
 class PDFStandardSecurityHandlerV5(PDFStandardSecurityHandlerV4):
@@ -671,7 +680,7 @@ class PDFStandardSecurityHandlerV5(PDFStandardSecurityHandlerV4):
             modes.CBC(initialization_vector),
             backend=default_backend(),
         )  # type: ignore
-        return cipher.decryptor().update(ciphertext)  # type: ignore
+        return unpad_aes(cipher.decryptor().update(ciphertext))  # type: ignore
 
 
 class PDFDocument:
